@@ -112,6 +112,7 @@ static struct entry *lookup(int kind) {
 
 static int interesting(const char *path) {
     if (!path) return 0;
+    if (!strcmp(path, "/dev/null")) return 1; /* a legitimate output path of the program */
     static const char *skip[] = {"/proc/", "/sys/", "/lib", "/usr/", "/etc/", "/dev/", NULL};
     for (int i = 0; skip[i]; i++)
         if (!strncmp(path, skip[i], strlen(skip[i]))) return 0;
